@@ -252,10 +252,10 @@ def pKeyword (rec : List PTok → Res Ast) : Nat → Bool → List PTok → Res 
 
 /-- `parse_function` after the identifier and `(` have been read. -/
 def pCall (rec : List PTok → Res Ast) (name : String) (toks : List PTok) : Res Ast :=
-  match pPositional rec toks.length false toks with
+  match pPositional rec (toks.length + 1) false toks with
   | .error e => .error e
   | .ok (args, t1) =>
-    match pKeyword rec t1.length false t1 with
+    match pKeyword rec (t1.length + 1) false t1 with
     | .error e => .error e
     | .ok (kws, t2) =>
       match expect .rpar t2 with
